@@ -23,7 +23,7 @@ RULE = (
     "row, the passing combinations in row-major order; the state indexer has the shape of the restricted-state "
     "product, holds the rank among combinations with >=1 passing choice and -1 elsewhere; segment_ids[j] = rank of "
     "the state part of row j, num_segments = number of ranked states; unrestricted discrete variables and continuous "
-    "states are stored as their full grids in canonical order; axis names follow the layout contract. Non-trivial: "
+    "states are stored as their full grids (compared as a set: the statement fixes no order for them); axis names follow the layout contract. Non-trivial: "
     ">=1 restricted choice and some restricted-state combination fully excluded and some only partially; distinct by "
     "case digest."
 )
@@ -99,8 +99,10 @@ def check(case):
             msgs.append(f"segments {gs.tolist()[:12]} / {segments['num_segments']} != {exp_seg.tolist()[:12]} / {int(keep.sum())}")
     dchoices = [c for c in spec.choices if spec.choices[c][0] == "disc" and c not in sp_choices]
     exp_dense = dd + dchoices + cs
-    if list(space.dense_vars) != exp_dense:
-        msgs.append(f"dense variables {list(space.dense_vars)} != canonical order {exp_dense}")
+    # the statement fixes the ORDER only for the stored combinations; for the unrestricted
+    # variables it requires that they are stored (as full grids), so compare as a set
+    if sorted(space.dense_vars) != sorted(exp_dense):
+        msgs.append(f"dense variables {list(space.dense_vars)} != unrestricted discrete variables + continuous states {exp_dense}")
     else:
         for v in exp_dense:
             g = np.asarray(space.dense_vars[v], dtype=float)
